@@ -83,7 +83,9 @@ package responsemanager
 //@   ensures (result == nil) <==> (nPush == old(nPush) + 1)
 //@   ensures result != nil ==> nPush == old(nPush)
 //@   callsite TaskQueue.PushTask argis "inProgressResponse.peer": assert $p == inProgressResponse.peer
-//@   callsite TaskQueue.PushTask argis "peertask.Task{Topic: requestID": assert true
+//@   -- C25 / C21: the resumed task counts as one unit of work against its peer, like every other task (the per-peer work
+//@   -- limit is what keeps one peer's responses from taking all the workers)
+//@   callsite TaskQueue.PushTask argis "peertask.Task{Topic: requestID": assert $task.Work == 1 && $task.Topic == requestID
 //@   ensures invRS(rm) && othersSameRS(rm, requestID) && (forall q peer.ID, t ref :: prot[q][t] <==> old(prot)[q][t])
 //@   ensures result == nil ==> old(requestID in rm.inProgressResponses) && old(rm.inProgressResponses[requestID].state) == graphsync.Paused
 //@              && rm.inProgressResponses[requestID].state == graphsync.Queued
@@ -101,7 +103,7 @@ package responsemanager
 //@   -- C23: a new response is Queued exactly when its task was pushed (otherwise it is Paused or CompletingSend)
 //@   ensures (rm.inProgressResponses[request.id].state == graphsync.Queued) <==> (nPush == old(nPush) + 1)
 //@   ensures rm.inProgressResponses[request.id].state == graphsync.Queued || rm.inProgressResponses[request.id].state == graphsync.Paused || rm.inProgressResponses[request.id].state == graphsync.CompletingSend
-//@   callsite TaskQueue.PushTask argis "peertask.Task{Topic: request.ID()": assert $p == p
+//@   callsite TaskQueue.PushTask argis "peertask.Task{Topic: request.ID()": assert $p == p && $task.Work == 1
 //@   ensures invRS(rm) && othersSameRS(rm, request.id)
 //@   ensures request.id in rm.inProgressResponses && rm.inProgressResponses[request.id].peer == p
 
@@ -182,6 +184,7 @@ package responsemanager
 
 //@ -- ============================ C23: what PeerState reports is exactly the recorded state and the queue's lists ============================
 //@ transparent peertracker.PeerTrackerTopics
+//@ transparent peertask.Task
 //@ func fromPeerTopics
 //@   lenient
 //@   safety off
@@ -241,6 +244,21 @@ package responsemanager
 //@ fn cidSetElem(s ref, i int) ref
 //@ -- the scope a request deduplicates in is chosen first: the ignore set (do-not-send-cids) is RECORDED in the scope's
 //@ -- link tracker, so it must not be recorded before the scope is known
+//@ -- C08: what the request hooks decided becomes the first transaction of the response. A request that no hook validated
+//@ -- (with the default configuration: one whose selector the validator refused - unbounded or too deep recursion) is
+//@ -- refused with RequestRejected, whatever else the hooks asked for (a pause in particular); only a hook ERROR comes first
+//@ -- (`result` is the captured hook result here, `result0` what the transaction returns)
+//@ func prepareQuery.func1
+//@   lenient
+//@   safety off
+//@   -- (environment: a constant of a string type converted to error is a non-nil interface value)
+//@   requires errInvalidRequest != nil
+//@   modifies alloc, nFinishErr, lastFailStatus, nPauseOps
+//@   ensures result.Err == nil && !result.IsValidated ==> result0 != nil && nFinishErr == old(nFinishErr) + 1
+//@              && lastFailStatus == graphsync.RequestRejected && nPauseOps == old(nPauseOps)
+//@   ensures result.Err != nil ==> result0 != nil && nFinishErr == old(nFinishErr) + 1 && lastFailStatus == graphsync.RequestFailedUnknown && nPauseOps == old(nPauseOps)
+//@   ensures result.Err == nil && result.IsValidated ==> result0 == nil && nFinishErr == old(nFinishErr)
+//@              && nPauseOps == old(nPauseOps) + ite(result.IsPaused, 1, 0)
 //@ func prepareQuery
 //@   lenient
 //@   safety off
